@@ -105,7 +105,7 @@ Proof.
 Qed.
 
 (* ---- THE WHOLE REPAIRED MIRROR (fix bits 0..6 and 8 = library commits dd06ff7, 0870444, 01fc326, 6de7bdd, d9a5962,
-        112b5b7, a7a3a60, 281f33a - the baseline [init_state] has them - plus bit 9 = notes/fix_C08_9.diff, proposed): no server input makes
+        112b5b7, a7a3a60, 281f33a, and bit 9 = a41e88e; the baseline [init_state] = HEAD has them all): no server input makes
         HandleRFBServerMessage's mirror leave an object - no exception list.  (Bit 7 = d211e4c only selects the
         CPIXEL width of 16-bpp clients; the statement holds with and without it.) *)
 Definition fixes_all (s : cst) : Prop :=
@@ -142,23 +142,21 @@ Proof.
   pose proof (safe_dec_trle x y w h Hx Hy s ts Hs (conj F4 (conj HW HH))) as H. rewrite E in H. exact H.
 Qed.
 
-Example C08_no_oob_write_nonvacuous :
-  st_ok (set_fix (init_state f888 255 16 16) 1023) /\ fixes_all (set_fix (init_state f888 255 16 16) 1023).
+Example C08_no_oob_write_nonvacuous : st_ok (init_state f888 255 16 16) /\ fixes_all (init_state f888 255 16 16).
 Proof.
   split; [split; [apply init_state_wf; lia|unfold bypp_pos; cbn; lia]|]. repeat split; reflexivity.
 Qed.
 
-(* bit 9 (notes/fix_C08_9.diff, finding C08-F29) is NOT in the library yet: on the baseline flow a fresh client crashes
-   on an UltraZip rectangle whose width makes ry + rw * 65535 overflow [int] *)
+(* before a41e88e (fix bit 9, finding C08-F29) a fresh client crashed on an UltraZip rectangle whose width makes
+   ry + rw * 65535 overflow [int]; regression witness *)
 Theorem C08_ultrazip_hugew_refuted : exists s ts c, st_ok s /\ c_fix s = 511 /\ handle_msg s ts = Oob c.
 Proof.
-  exists (init_state f888 255 16 16), w_ultrazip_hugew, 45.
+  exists (state511 f888 255 16 16), w_ultrazip_hugew, 45.
   split; [split; [apply init_state_wf; lia|unfold bypp_pos; cbn; lia]|split; [reflexivity|exact w_ultrazip_hugew_oob]].
 Qed.
 
 (* the baseline state of the mirror satisfies the hypotheses *)
-Example C08_no_oob_fixed_nonvacuous :
-  st_ok (set_fix (init_state f888 255 16 16) 1023) /\ fixes_0_3 (set_fix (init_state f888 255 16 16) 1023).
+Example C08_no_oob_fixed_nonvacuous : st_ok (init_state f888 255 16 16) /\ fixes_0_3 (init_state f888 255 16 16).
 Proof.
   split; [split; [apply init_state_wf; lia|unfold bypp_pos; cbn; lia]|]. repeat split; reflexivity.
 Qed.
